@@ -9,12 +9,17 @@ import (
 	"os/exec"
 	"path/filepath"
 	"strings"
+	"sync"
 	"time"
 )
 
 // runHarness injects /verif/replaygen/<file> into package dir pkg of the repository through
 // `go test -overlay` (nothing is written into the repository) and returns the REPLAY-CONFIRMED lines.
 func runHarness(repo, root, file, pkg, test string, env []string, timeout time.Duration) ([]string, string) {
+	return runHarnessX(repo, root, file, pkg, test, env, timeout, nil)
+}
+
+func runHarnessX(repo, root, file, pkg, test string, env []string, timeout time.Duration, extraArgs []string) ([]string, string) {
 	work, err := os.MkdirTemp("", "govc-replay-")
 	if err != nil {
 		return nil, err.Error()
@@ -26,7 +31,10 @@ func runHarness(repo, root, file, pkg, test string, env []string, timeout time.D
 	data, _ := json.Marshal(ov)
 	ovf := filepath.Join(work, "ov.json")
 	os.WriteFile(ovf, data, 0644)
-	cmd := exec.Command("go", "test", "-overlay", ovf, "-vet=off", "-v", "-count=1", "-timeout", fmt.Sprintf("%ds", int(timeout.Seconds())), "-run", "^"+test+"$", "./"+pkg)
+	args := []string{"test", "-overlay", ovf, "-vet=off", "-v", "-count=1", "-timeout", fmt.Sprintf("%ds", int(timeout.Seconds())), "-run", "^" + test + "$"}
+	args = append(args, extraArgs...)
+	args = append(args, "./"+pkg)
+	cmd := exec.Command("go", args...)
 	cmd.Dir = repo
 	cmd.Env = append(os.Environ(), "GOFLAGS=-mod=mod", "GOPROXY=off", "GOSUMDB=off", "GOTOOLCHAIN=local")
 	cmd.Env = append(cmd.Env, env...)
@@ -38,6 +46,12 @@ func runHarness(repo, root, file, pkg, test string, env []string, timeout time.D
 	for _, l := range strings.Split(out.String(), "\n") {
 		if strings.HasPrefix(l, "REPLAY-CONFIRMED ") {
 			lines = append(lines, strings.TrimPrefix(l, "REPLAY-CONFIRMED "))
+		}
+		if strings.HasPrefix(l, "WARNING: DATA RACE") {
+			lines = append(lines, "data race reported by the race detector (go test -race)")
+		}
+		if strings.HasPrefix(l, "panic: ") || strings.HasPrefix(l, "fatal error: ") {
+			lines = append(lines, "real code crashed: "+l)
 		}
 	}
 	return lines, out.String()
@@ -134,6 +148,12 @@ func replayOnRealCode(v *Verifier, o *Obligation, prop string, inputs, model map
 	switch prop {
 	case "C01":
 		return replayC01(v, o, repo, root, work, seed)
+	case "C09":
+		return searchReplay(repo, root, "C09_replay_test.go", "valid", "TestVerifReplayC09", []string{"VERIF_SEARCH=" + fmt.Sprint(seed) + ":5"}, nil,
+			"bounded-exhaustive search over operation sequences (<= 5 ops, 3 keys, 2 values, capacities 0..2) against a reference LRU")
+	case "C10":
+		return searchReplay(repo, root, "C10_replay_test.go", "valid", "TestVerifReplayC10", nil, []string{"-race"},
+			"8 goroutines of random Store/Load/Delete/Len/Dump streams on one cache under the race detector")
 	}
 	return nil
 }
@@ -238,4 +258,27 @@ func lastLines(s string, n int) string {
 		l = l[len(l)-n:]
 	}
 	return strings.Join(l, "\n")
+}
+
+var searchCache sync.Map
+
+// searchReplay runs a property's witness search once per check run (results are shared by all
+// failed obligations of the property).
+func searchReplay(repo, root, file, pkg, test string, env, extra []string, how string) *ReplayResult {
+	key := repo + "|" + file
+	if r, ok := searchCache.Load(key); ok {
+		return r.(*ReplayResult)
+	}
+	lines, out := runHarnessX(repo, root, file, pkg, test, env, 120*time.Second, extra)
+	var res *ReplayResult
+	if len(lines) > 0 {
+		if len(lines) > 3 {
+			lines = lines[:3]
+		}
+		res = &ReplayResult{Confirmed: true, Summary: "CONFIRMED by " + how, Detail: strings.Join(lines, "\n")}
+	} else {
+		res = &ReplayResult{Confirmed: false, Summary: "not confirmed (" + how + ")", Detail: lastLines(out, 5)}
+	}
+	searchCache.Store(key, res)
+	return res
 }
